@@ -476,6 +476,36 @@ def run_nonstring(ns, res, spec):
                 res.violation('js-delimiter-in-nonstring-field-silent', 'JS: %r written under %s %r without the separator warning (%r)' % (table, policy, dlm, o['warnings']), {'table': table, 'policy': policy, 'dlm': dlm, 'engine': 'js', 'leg': 'nonstring'})
             if o['error'] is None and not lossy and got:
                 res.violation('js-spurious-separator-warning', 'JS: %r written under %s %r warned although no field holds the separator (%r)' % (table, policy, dlm, o['warnings']), {'table': table, 'policy': policy, 'dlm': dlm, 'engine': 'js', 'leg': 'nonstring'})
+        # a missing value in JS is null, undefined - or an EMPTY SLOT of a sparse array (new Array(3), [a1, , a2], delete row[i]), at the top level of the
+        # record or inside an array-valued cell: each is written as an empty field and each must be reported
+        hole, undef = {'__js__': 'hole'}, {'__js__': 'undefined'}
+        hcases = []
+        for _ in range(max(30, spec['n'] // 4)):
+            policy = rng.choice(['simple', 'quoted', 'quoted_rfc', 'monocolumn'])
+            dlm = rng.choice([',', ';', '\t']) if policy != 'monocolumn' else ''
+            missing = rng.choice([hole, hole, hole, None, undef, 'none'])
+            w_ = 1 if policy == 'monocolumn' else rng.randrange(1, 4)
+            table = [[rng.choice(['x', 'y z', '5']) for _j in range(w_)] for _i in range(rng.randrange(1, 4))]
+            if missing != 'none':
+                r_ = rng.choice(table)
+                if rng.random() < 0.5 or policy == 'monocolumn':
+                    r_[rng.randrange(len(r_))] = missing
+                else:
+                    r_[rng.randrange(len(r_))] = rng.choice([[missing], ['p', missing], [missing, 'p', missing], [hole, hole, hole]] if missing is hole else [[missing], ['p', missing]])
+            hcases.append((table, policy, dlm, missing != 'none'))
+        reqs = [{'table': t, 'delim': d, 'policy': p, 'line_separator': '\n', 'encoding': 'utf-8', 'revive': True} for t, p, d, _m in hcases]
+        outs = node.call({'op': 'write_batch', 'cases': reqs})['results']
+        for (table, policy, dlm, has_missing), o in zip(hcases, outs):
+            res.evaluations += 1
+            res.count('js_missing_value_kinds_checks')
+            res.nontrivial('js-missing-kinds', repr(table), policy, dlm)
+            got = 'none' in util.warning_kinds(o['warnings'])
+            case = {'table': table, 'policy': policy, 'dlm': dlm, 'engine': 'js', 'leg': 'js-missing-kinds'}
+            if o['error'] is not None:
+                res.violation('js-missing-value-write-failed', 'JS: %r under %s %r: the writer raised %r' % (table, policy, dlm, o['error']), case)
+            elif got != has_missing:
+                res.violation('js-missing-value-warning-not-iff', 'JS: %r written under %s %r as %r: warnings %r, a missing value (null / undefined / empty slot) is present: %s' % (
+                    table, policy, dlm, bytes.fromhex(o['bytes_hex']), o['warnings'], has_missing), case)
         # quoted policies in the JS port: numbers (long mantissas, exponent forms, the integer limits), booleans, arrays and special cells reach
         # the writer as they are; the file reads back as the language's own text of every cell (String(value), taken by the driver before the writer runs)
         jvalues = [-5, 2.5, -0.25, 1e-07, 1e21, True, False, 1 / 3, 0.1 + 0.2, 3.141592653589793, 1696291234.567891, 1234567.891234567, 2 ** 53, 2 ** 53 - 1, 1e300, 5e-324,
@@ -540,7 +570,7 @@ def summarize(tier, seed, m):
     return {
         'rule': 'exhaustive small tables (1x1 with fields up to length %d, 1x2 / 2x1 up to length 2, 2x2 and ragged up to length 1) over {quote, space, tab, CR, LF, a, e-acute, delimiter characters} for each of %d dialects (policies simple/quoted/quoted_rfc x delimiters %r, whitespace, monocolumn) x line separators x encodings {None, utf-8, latin-1}; random larger tables incl. None cells; a table holding all 256 latin-1 code points; file-to-file leg through query_csv; JS writer/reader leg. Representability decided by the reference writer/reader pair. JS: tables of 4097-9000 short records (thousands per stream chunk) written and read back by the bulk and the stream reader; py: values that are not strings when they reach the writer (numbers, tuples, dicts, dates, decimals, bytes, ranges, nested lists) under the quoted policies with delimiters that occur in their text - the file reads back as the texts; distinct_nontrivial = distinct representable (table, dialect) cases containing at least one special character.' % (3 if tier == 'quick' else 4, len(dialects()), DELIMS),
         'exhaustive': True,
-        'required': ['nonstring_quoted_roundtrips', 'js_nonstring_quoted_roundtrips', 'js_wide_line_roundtrips', 'js_long_narrow_tables', 'nonstring_delimiter_clause_checks', 'js_nonstring_delimiter_clause_checks', 'header_delimiter_clause_checks', 'js_stream_roundtrips', 'representable_roundtrips', 'delimiter_clause_checks', 'none_clause_checks', 'file_to_file_runs', 'latin1_all_byte_tables'],
+        'required': ['js_missing_value_kinds_checks', 'nonstring_quoted_roundtrips', 'js_nonstring_quoted_roundtrips', 'js_wide_line_roundtrips', 'js_long_narrow_tables', 'nonstring_delimiter_clause_checks', 'js_nonstring_delimiter_clause_checks', 'header_delimiter_clause_checks', 'js_stream_roundtrips', 'representable_roundtrips', 'delimiter_clause_checks', 'none_clause_checks', 'file_to_file_runs', 'latin1_all_byte_tables'],
         'assumptions': ['rv.model.refcsv write_table/read_text decide representability exactly as the quantifier prescribes'],
     }
 
